@@ -226,9 +226,13 @@ def run_translator():
         return {}
 
 
-def lake_build(targets=()):
-    """returns (ok, failed_modules, output). Serialised across concurrent checks."""
+def lake_build(targets=(), translate=True):
+    """regenerate the tables from REPO and build; returns (ok, failed_modules, output).  Translator and build
+    run under one lock so that concurrent checks (possibly against different VERIF_REPO trees) each build
+    against the tables of their own tree."""
     with FileLock(os.path.join(SCRATCH, "lake.lock")):
+        if translate:
+            lake_build.last_report = run_translator()
         t0 = time.time()
         r = subprocess.run(["lake", "build"] + list(targets), cwd=LEAN_DIR, capture_output=True, text=True)
         out = r.stdout + r.stderr
@@ -296,7 +300,8 @@ def audit(prop):
     f = os.path.join(adir, "audit_%s.lean" % prop)
     with open(f, "w") as fh:
         fh.write(AUDIT_TMPL % {"prop": prop})
-    r = subprocess.run(["lake", "env", "lean", f], cwd=LEAN_DIR, capture_output=True, text=True)
+    with FileLock(os.path.join(SCRATCH, "lake.lock")):
+        r = subprocess.run(["lake", "env", "lean", f], cwd=LEAN_DIR, capture_output=True, text=True)
     if r.returncode != 0:
         res["problems"].append("audit script failed: " + (r.stdout + r.stderr)[-1500:])
         return res
@@ -371,8 +376,28 @@ def _run_chunk(exe, args, lines, timeout, env):
             break
         # first scenario without output is the one that killed the process
         victim = rest[0]
-        kind = "timeout" if rc == -999 else classify_crash(rc, se)
-        out[victim["id"]] = {"id": victim["id"], "outcome": kind, "stderr": se[-3000:]}
+        if rc == -999:
+            # the time limit is for the whole chunk and the machine may be busy: a hang is only declared when the
+            # scenario also exceeds the limit on its own
+            try:
+                r1 = subprocess.run([exe] + list(args), input=json.dumps(victim, separators=(",", ":")) + "\n",
+                                    capture_output=True, text=True, timeout=timeout, env=env)
+                done = False
+                for line in r1.stdout.splitlines():
+                    if line.startswith("{"):
+                        try:
+                            j = json.loads(line)
+                        except Exception:
+                            continue
+                        if j.get("id") == victim["id"]:
+                            out[victim["id"]] = j
+                            done = True
+                if not done:
+                    out[victim["id"]] = {"id": victim["id"], "outcome": classify_crash(r1.returncode, r1.stderr), "stderr": r1.stderr[-3000:]}
+            except subprocess.TimeoutExpired:
+                out[victim["id"]] = {"id": victim["id"], "outcome": "timeout", "stderr": se[-3000:]}
+        else:
+            out[victim["id"]] = {"id": victim["id"], "outcome": classify_crash(rc, se), "stderr": se[-3000:]}
         pending = rest[1:]
     return out
 
@@ -400,6 +425,20 @@ def classify_crash(rc, se):
     return "exit:%d" % rc
 
 
+_world = None
+
+
+def world_dir():
+    """per-check scratch directory for scenario worlds (tmpfs when available), removed at exit"""
+    global _world
+    if _world is None:
+        base = "/dev/shm" if os.path.isdir("/dev/shm") and os.access("/dev/shm", os.W_OK) else SCRATCH
+        _world = ensure_dir(os.path.join(base, "oomd-verif-world", str(os.getpid())))
+        import atexit
+        atexit.register(lambda: shutil.rmtree(_world, ignore_errors=True))
+    return _world
+
+
 def run_harness(exe, scenarios, args=(), jobs=None, timeout=300, env=None, chunk=None):
     jobs = jobs or NCPU
     if not scenarios:
@@ -408,6 +447,8 @@ def run_harness(exe, scenarios, args=(), jobs=None, timeout=300, env=None, chunk
     e.setdefault("ASAN_OPTIONS", "detect_leaks=0:abort_on_error=0:allocator_may_return_null=1")
     e.setdefault("UBSAN_OPTIONS", "print_stacktrace=1")
     e["INLINE_LOGGING"] = "1"
+    if "VERIF_WORLD" not in e:
+        e["VERIF_WORLD"] = world_dir()
     if env:
         e.update(env)
     n = len(scenarios)
@@ -566,8 +607,8 @@ def run_check(mod, tier, seed, replay=None):
     assumptions = list(getattr(mod, "ASSUMPTIONS", []))
 
     # 1. translator + proof obligations
-    trep = run_translator()
     ok, failed, out = lake_build(["+OomdProps." + prop, "drv_" + mod.ENGINE])
+    trep = getattr(lake_build, "last_report", {})
     proof_broken = []
     engine_mod = "Driver." + mod.ENGINE.capitalize()
     driver_ok = True
@@ -642,7 +683,7 @@ def run_check(mod, tier, seed, replay=None):
             disagree.append((s, t, v))
 
     def is_failing(c, t, v):
-        return (not v.get("holds", True)) or bad_outcome(t)
+        return (not v.get("holds", True)) or (bad_outcome(t) and not getattr(mod, "OUTCOME_IN_MODEL", False))
 
     # group failing by class
     by_class = {}
